@@ -110,6 +110,11 @@ def check_pipeline(ctx: Ctx):
 
 
 def check(ctx: Ctx):
+    # instance counts and label tuples come from the label enumeration helpers (R09.6)
+    from . import c03 as _c03e
+    from .labelenum import check_label_enumeration as _cle
+
+    _c03e._guarded(ctx, "R09.6", _cle)
     c08.check_pipeline_typestate(ctx)  # R01.1 (same typestate engine; obligations recorded under R08.4 ids)
     check_pipeline(ctx)
     # R01.3 delegation
